@@ -1,6 +1,7 @@
 """C15 Radix-50 packing — E1, fully exhaustive in both tiers."""
 import itertools
 from .. import batch
+from .. import driver as _driver
 from ..ref import rad50 as ref
 
 ID = "C15"
@@ -89,6 +90,15 @@ def check(case, r, tier):
             w2 = (n * 40 + n) * 40 + n
             good.append((("code3", n), ".rad50 <%d.><%o><0x%x>" % (n, n, n), bytes([w2 & 255, w2 >> 8])))
         batch.run_valid_batch(good, r, ID)
+        # inside '.repeat' the same token is evaluated once per iteration and <n> may depend on '.'
+        for n in (2, 3, 5):
+            text = ".link 1000\ntb: .repeat %d { .rad50 /SEG/<<.-tb>/4+36> }\n" % n
+            want = b"".join(words("SEG") + bytes([((30 + i) * 1600) & 255, ((30 + i) * 1600) >> 8]) for i in range(n))
+            out = _driver.assemble([("r.mac", text)])
+            okk = out.status == "ok" and out.code == want
+            r.ran("ok" if okk else out.cls(), key=("rad50-repeat", n))
+            if not okk:
+                r.violation("rad50-in-repeat", ".rad50 with a '.'-dependent <n> inside .repeat", {"kind": "single", "text": text, "expected_hex": want.hex()}, want.hex(), out.brief())
         for n in [-1] + list(range(40, 65)):
             for text in (".rad50 <%d.>" % n, ".rad50 /ab/<%d.>" % n):
                 batch.expect_error(text + "\n", r, ("badcode", text), {"kind": "error", "text": text + "\n"})
